@@ -11,7 +11,7 @@ RULE = ('case = generated annotation with mass-resolvable modifications of every
         'least two kinds of which one is not a plain residue modification')
 ASSUMPTIONS = [
     'reference shifts per site come from pv/refmods.py / pv/refchem.py; the per-site clause is asserted only for inputs whose modifications all have a definite site',
-    'mass tolerance: half a unit of the precision per shift written (+2e-6 per residue whose net shift is below the documented 1e-6 significance threshold; +1e-4 per named modification under an isotope label, C03 tolerance)',
+    'mass tolerance: half a unit of the precision per shift written (+2e-6 per residue whose net shift is below the documented 1e-6 significance threshold); input and output are both weighed by the library, so tabulated-vs-composition differences of a named modification get no allowance',
     'unknown-position and interval modifications may stay in the result as numeric shifts at the same place (they have no residue of their own); static rules and isotope labels must be gone',
     'a static N-Term / C-Term rule modifies the terminus, so its shift is expected on the terminus (as condense_static_mods writes it), not on the terminal residue',
 ]
@@ -25,6 +25,15 @@ def _label_delta(labels, comp):
         el = 'H' if L in ('D', 'T', '2H') else L.lstrip('0123456789')
         d += comp.get(el, 0) * (refchem.atom_mass(L) - refchem.atom_mass(el))
     return d
+
+
+def _shift_in_peptide(ms, labelled):
+    """what the modifications weigh inside the peptide: their tabulated masses, or - under a global isotope label, where the mass
+    calculator goes through compositions - the mass of their compositions (pure mass shifts as they are)"""
+    if not labelled:
+        return refmods.mods_mass(ms, True)
+    comp, delta = refmods.mods_comp(ms)
+    return refchem.comp_mass(comp, True) + delta
 
 
 def check_case(case) -> Result:
@@ -73,13 +82,13 @@ def check_case(case) -> Result:
             if v[0] not in ('int', 'float'):
                 r.fail('the result contains only numeric modifications', 'C18/non-numeric/interval', result=out, **ctx)
         got = sum(v[1] * m for v, m in (iv[3] or []) if v[0] in ('int', 'float'))
-        if abs(got - refmods.mods_mass(ms_in, True)) > 0.5 * 10 ** (-prec) + 1e-9:
-            r.fail('an interval keeps the mass of its modifications', 'C18/site/interval', expected=refmods.mods_mass(ms_in, True), got=got,
+        if abs(got - _shift_in_peptide(ms_in, bool(pep['isotope']))) > 0.5 * 10 ** (-prec) + 1e-8:
+            r.fail('an interval keeps the mass of its modifications', 'C18/site/interval', expected=_shift_in_peptide(ms_in, bool(pep['isotope'])), got=got,
                    result=out, **ctx)
     if obs['unknown']:
         got = sum(v[1] * m for v, m in obs['unknown'] if v[0] in ('int', 'float'))
-        if abs(got - refmods.mods_mass(pep['unknown'], True)) > 0.5 * 10 ** (-prec) + 1e-9:
-            r.fail('unknown-position modifications keep their mass', 'C18/site/unknown', expected=refmods.mods_mass(pep['unknown'], True),
+        if abs(got - _shift_in_peptide(pep['unknown'], bool(pep['isotope']))) > 0.5 * 10 ** (-prec) + 1e-8:
+            r.fail('unknown-position modifications keep their mass', 'C18/site/unknown', expected=_shift_in_peptide(pep['unknown'], bool(pep['isotope'])),
                    got=got, result=out, **ctx)
     for f in ('labile', 'nterm', 'cterm', 'unknown'):
         for v, _m in (obs[f] or []):
@@ -100,7 +109,9 @@ def check_case(case) -> Result:
     E_all = model.expand_static(pep)
     small = sum(1 for _i, ms in E_all['internal'] if 0 < abs(refmods.mods_mass(ms, True)) <= 2e-6)
     named = sum(mm for t, mm in refmass.all_mods(pep) if refmods.resolve(t)['kind'] in ('unimod', 'psimod', 'glycan'))
-    tol = 0.5 * 10 ** (-prec) * max(1, shifts) + 1e-9 + 2e-6 * small + (1e-4 * named + 1e-6 * n if pep['isotope'] else 0)
+    # (both masses come from the library's mass(): a named modification under a label needs no allowance of its own - the condensed
+    # shift is what mass() weighs, composition-based under a label; 3e-8 per charge for the proton constant vs hydrogen minus electron)
+    tol = 0.5 * 10 ** (-prec) * max(1, shifts) + 1e-9 + 2e-6 * small + (3e-8 * (1 + abs(pep['charge'] or 0)) if pep['isotope'] else 0)
     diff = m_out - m_in
     if abs(diff) > tol:
         # known repetition of annotations that have no single residue: they are added once per residue of the split
@@ -151,14 +162,14 @@ def check_case(case) -> Result:
             exp = refmods.mods_mass(internal.get(i, []), True) + _label_delta(pep['isotope'], refchem.RESIDUES[aa])
             got = sum(v[1] * m for v, m in oi.get(str(i), []))
             site_named = sum(mm for t, mm in internal.get(i, []) if refmods.resolve(t)['kind'] in ('unimod', 'psimod', 'glycan'))
-            if abs(got - exp) > 0.5 * 10 ** (-prec) + 2e-6 + (1e-4 * site_named if pep['isotope'] else 0):
+            if abs(got - exp) > 0.5 * 10 ** (-prec) + 2e-6 + (1e-4 * site_named if pep['isotope'] else 0):  # (reference: tabulated masses)
                 r.fail('the shifts sit on the residues that were modified (rules and labels expanded per residue)', 'C18/site/residue',
                        index=i, expected=exp, got=got, result=out, **ctx)
                 break
         for f in ('nterm', 'cterm', 'labile'):
-            exp = refmods.mods_mass(E[f], True)  # (E: static N-Term / C-Term rules written out on their terminus)
+            exp = _shift_in_peptide(E[f], bool(pep['isotope']))  # (E: static N-Term / C-Term rules written out on their terminus)
             got = sum(v[1] * m for v, m in (obs[f] or []))
-            if abs(got - exp) > 0.5 * 10 ** (-prec) + 1e-9:
+            if abs(got - exp) > 0.5 * 10 ** (-prec) + 1e-8:
                 r.fail('terminal and labile modifications become one numeric shift at the same place', f'C18/site/{f}', expected=exp, got=got,
                        result=out, **ctx)
     # annotation input gives the same string
@@ -170,7 +181,7 @@ def check_case(case) -> Result:
 
 def strategy():
     small = st.tuples(st.sampled_from(['0.005', '-0.003', '+0.0005', '0.00002', '0.0011']), st.just(1)).map(list)
-    one = st.one_of(gen.mass_mod(('num', 'formula', 'unimod', 'glycan'), max_mult=3, decorate=True), gen.mass_mod(('num', 'formula', 'unimod', 'glycan'), max_mult=3, decorate=True), gen.mass_mod(('num', 'formula', 'unimod', 'glycan'), max_mult=3, decorate=True), small)
+    one = st.one_of(gen.mass_mod(('num', 'formula', 'unimod', 'glycan'), max_mult=3, decorate=True), gen.mass_mod(('num', 'formula', 'unimod', 'glycan'), max_mult=3, decorate=True), gen.mass_mod(('num', 'formula', 'unimod', 'glycan', 'psi'), max_mult=3, decorate=True), small)
     st_text = gen.mass_mod_text(('num', 'formula', 'unimod'), gt_ok=False)
     pm = gen.pep_model(alphabet=gen.AA_MASS.replace('X', ''), min_len=1, max_len=15, kinds=KINDS, mod_strategy=one,
                        mod_list=st.lists(one, min_size=1, max_size=2), allow_empty=False, static_mod_text=st_text,
